@@ -6,6 +6,8 @@ pub open spec fn smin(a: int, b: int) -> int { if a <= b { a } else { b } }
 pub open spec fn ssub(a: int, b: int) -> int { if a >= b { a - b } else { 0 } }
 
 pub open spec fn BIG() -> int { 0x1000_0000_0000_0000 }
+/// bound on hunk start lines: the parser accepts header line numbers up to isize::MAX/2 = 2^62 - 1 (parse_hunk)
+pub open spec fn LBIG() -> int { 0x4000_0000_0000_0000 }
 
 /// Well-formed hunk: the declared context really is context on both sides.
 pub open spec fn hunk_wf<L>(h: Hunk<L>) -> bool {
@@ -16,8 +18,8 @@ pub open spec fn hunk_wf<L>(h: Hunk<L>) -> bool {
     &&& p + s <= rem.len()
     &&& p + s <= add.len()
     &&& rem.len() < BIG() && add.len() < BIG()
-    &&& 0 <= h.remove.target_line < BIG()
-    &&& 0 <= h.add.target_line < BIG()
+    &&& 0 <= h.remove.target_line < LBIG()
+    &&& 0 <= h.add.target_line < LBIG()
     &&& forall|i: int| 0 <= i < p ==> #[trigger] rem[i] == add[i]
     &&& forall|i: int| rem.len() - s <= i < rem.len() ==> #[trigger] rem[i] == add[i - rem.len() + add.len()]
 }
